@@ -414,12 +414,9 @@ Proof.
   - intro E. rewrite E in *. simpl in *. assumption.
 Qed.
 
-Definition msc3787 : bytes := Eval vm_compute in bs "org.matrix.msc3787".
-
-(* every version except the one whose restricted-join switch is missing (F10) *)
+(* every version of the generated table *)
 Lemma generated_table_agrees :
   forallb (fun ver =>
-             bytes_eqb ver msc3787 ||
              match flags_of_version ver, spec_rules_of ver with
              | Some f, Some sv => rules_agree_b f sv
              | _, _ => false
@@ -427,13 +424,56 @@ Lemma generated_table_agrees :
 Proof. vm_compute. reflexivity. Qed.
 
 Lemma version_rules_agree ver f sv :
-  In ver all_versions -> ver <> msc3787 ->
+  In ver all_versions ->
   flags_of_version ver = Some f -> spec_rules_of ver = Some sv -> rules_agree f sv.
 Proof.
-  intros Hin Hne Hf Hs. pose proof generated_table_agrees as H. rewrite forallb_forall in H.
+  intros Hin Hf Hs. pose proof generated_table_agrees as H. rewrite forallb_forall in H.
   specialize (H ver Hin). rewrite Hf, Hs in H.
-  apply bytes_eqb_neq in Hne. rewrite Hne in H. simpl in H.
   apply rules_agree_b_sound. exact H.
+Qed.
+
+(* stronger: every switch authorisation reads (including the level parser and the event format)
+   is, version by version, the one the hand-written specification matrix prescribes; and the two
+   tables list the same versions *)
+Definition flags_eqb (x y : ver_flags) : bool :=
+  Bool.eqb (vf_knocking x) (vf_knocking y)
+  && match vf_restricted x, vf_restricted y with
+     | Some a, Some b => Bool.eqb a b
+     | None, None => true
+     | _, _ => false
+     end
+  && pl_checker_eqb (vf_pl_check x) (vf_pl_check y)
+  && Bool.eqb (vf_int_levels x) (vf_int_levels y)
+  && create_checker_eqb (vf_create_check x) (vf_create_check y)
+  && Bool.eqb (vf_priv_creators x) (vf_priv_creators y)
+  && Bool.eqb (vf_pseudo_ids x) (vf_pseudo_ids y)
+  && Bool.eqb (vf_event_v3 x) (vf_event_v3 y).
+
+Lemma flags_eqb_eq x y : flags_eqb x y = true -> x = y.
+Proof.
+  destruct x as [a1 [[|]|] [] a4 [] a6 a7 a8], y as [b1 [[|]|] [] b4 [] b6 b7 b8];
+    unfold flags_eqb; simpl; intro H; try discriminate;
+    repeat (apply andb_true_iff in H; destruct H as [H ?]);
+    repeat match goal with E : Bool.eqb _ _ = true |- _ => apply Bool.eqb_prop in E end;
+    try discriminate; subst; reflexivity.
+Qed.
+
+Lemma generated_flags_eq_spec :
+  forallb (fun ver => match flags_of_version ver, spec_flags_of ver with
+                      | Some f, Some sf => flags_eqb f sf
+                      | _, _ => false
+                      end) all_versions = true
+  /\ forallb (fun vs => known_room_version (fst vs)) spec_table = true
+  /\ length all_versions = length spec_table.
+Proof. vm_compute. repeat split; reflexivity. Qed.
+
+Lemma version_flags_eq_spec ver :
+  In ver all_versions -> flags_of_version ver = spec_flags_of ver.
+Proof.
+  intro Hin. destruct generated_flags_eq_spec as [H _]. rewrite forallb_forall in H.
+  specialize (H ver Hin).
+  destruct (flags_of_version ver), (spec_flags_of ver); try discriminate.
+  f_equal. apply flags_eqb_eq. exact H.
 Qed.
 
 (* abs guarantees the consistency part of auth_wf *)
